@@ -175,4 +175,66 @@ theorem comment_skip_at_gap (f f' post : Str) (good : Str → Prop) (hf : Skip.F
   rw [Skip.skip_filler f post hf, Skip.skip_filler f' post hf', Skip.skip_stops post hp]
   exact Or.inr ⟨rfl, Nat.le_refl _⟩
 
+/-- `u` begins with something no filler can begin with, whatever follows `u` (one character: not white, `#`, `-`, `/`;
+two or more: the first two do not open a comment) -/
+def solidStart : Str → Bool
+  | [] => false
+  | [c] => !Skip.isWhite c && c != '#' && c != '-' && c != '/'
+  | c :: c2 :: _ => Skip.stopsHere [c, c2]
+
+theorem stopsHere_of_solidStart : ∀ (u k : Str), solidStart u = true → Skip.stopsHere (u ++ k) = true
+  | [], _, h => by simp [solidStart] at h
+  | [c], k, h => by
+    simp only [solidStart, Bool.and_eq_true, Bool.not_eq_true', bne_iff_ne, ne_eq] at h
+    obtain ⟨⟨⟨hw, hh⟩, hd⟩, hs⟩ := h
+    have hd' : (c == '-') = false := by simpa using hd
+    have hs' : (c == '/') = false := by simpa using hs
+    simp [Skip.stopsHere, hw, hh, hd', hs']
+  | c :: c2 :: cs, k, h => by
+    simp only [solidStart, Skip.stopsHere, List.head?_cons] at h
+    simpa [Skip.stopsHere] using h
+
+/-- in front of the gap: from an end `w ++ u'` (a filler `w`, then something solid) the comment-aware engine goes to `u'`
+on both sides, whatever fills the gap behind it -/
+theorem comment_skip_before_gap (f f' post w u' : Str) (good : Str → Prop) (hw : Skip.Filler w)
+    (hs : solidStart u' = true) (hg : good u') :
+    GapRel f f' post good (Skip.skip ((w ++ u') ++ (f ++ post))) (Skip.skip ((w ++ u') ++ (f' ++ post))) := by
+  have e1 : Skip.skip ((w ++ u') ++ (f ++ post)) = u' ++ (f ++ post) := by
+    rw [List.append_assoc, Skip.skip_filler w _ hw, Skip.skip_stops _ (stopsHere_of_solidStart u' _ hs)]
+  have e2 : Skip.skip ((w ++ u') ++ (f' ++ post)) = u' ++ (f' ++ post) := by
+    rw [List.append_assoc, Skip.skip_filler w _ hw, Skip.skip_stops _ (stopsHere_of_solidStart u' _ hs)]
+  rw [e1, e2]
+  exact Or.inl ⟨u', hg, rfl, rfl⟩
+
+/-- … and from an end that is followed by nothing but filler up to the gap, it goes behind the gap on both sides -/
+theorem comment_skip_filler_before_gap (f f' post u : Str) (good : Str → Prop) (hu : Skip.Filler u) (hf : Skip.Filler f)
+    (hf' : Skip.Filler f') (hp : Skip.stopsHere post = true) :
+    GapRel f f' post good (Skip.skip (u ++ (f ++ post))) (Skip.skip (u ++ (f' ++ post))) := by
+  rw [Skip.skip_filler u _ hu, Skip.skip_filler u _ hu, Skip.skip_filler f post hf, Skip.skip_filler f' post hf',
+    Skip.skip_stops post hp]
+  exact Or.inr ⟨rfl, Nat.le_refl _⟩
+
+/-! ### terminals that do not see the gap -/
+theorem stripPrefix_append (cl : Bool) : ∀ (s u k : Str), s.length ≤ u.length →
+    stripPrefix cl s (u ++ k) = (stripPrefix cl s u).map (· ++ k)
+  | [], u, k, _ => by simp [stripPrefix]
+  | _ :: _, [], _, h => by simp at h
+  | a :: s, b :: u, k, h => by
+    simp only [List.cons_append, stripPrefix]
+    by_cases c : chEq cl a b = true
+    · simp only [c, if_true]
+      exact stripPrefix_append cl s u k (by simp only [List.length_cons] at h; omega)
+    · simp [c]
+
+/-- a literal that fits into what is left in front of the gap matches — or not — alike on both texts -/
+theorem lit_term_gap (f f' post u s : Str) (cl : Bool) (goodE : Str → Prop) (hlen : s.length ≤ u.length)
+    (hgood : ∀ r0, stripPrefix cl s u = some r0 → goodE r0) :
+    TermRel (GapRel f f' post goodE) (matchTerm (.lit s cl) (u ++ (f ++ post))) (matchTerm (.lit s cl) (u ++ (f' ++ post))) := by
+  simp only [matchTerm, stripPrefix_append cl s u _ hlen]
+  cases h : stripPrefix cl s u with
+  | none => simp [TermRel]
+  | some r0 =>
+    simp only [Option.map_some, TermRel, true_and]
+    exact Or.inl ⟨r0, hgood r0 h, rfl, rfl⟩
+
 end MoSql.Peg
